@@ -328,7 +328,17 @@ def rule_g(ctx):
             if t["dest"]["l"] == 0:
                 continue  # returned as it is
             uses = final_uses(b, t["dest"]["l"])
-            kinds = sorted({("call:%s" % callee_method(d[0])) if k == "callarg" else k for k, _ubb, d in uses})
+            kept = []
+            for k, _ubb, d in uses:
+                if k == "ref" and is_bare(d["lhs"]):
+                    # a reference that only feeds a formatting argument (trace output) observes the value, it does not handle it
+                    ru = final_uses(b, d["lhs"]["l"])
+                    if ru and all(k2 == "callarg" and "fmt::rt::Argument" in (callee_def(d2[0]) or "") for k2, _b2, d2 in ru):
+                        continue
+                    if d.get("exp") and ru and all(k2 == "agg" and d2[0].get("exp") for k2, _b2, d2 in ru):
+                        continue  # the reference is taken inside a macro expansion (format_args! of a trace macro)
+                kept.append((k, d))
+            kinds = sorted({("call:%s" % callee_method(d[0])) if k == "callarg" else k for k, d in kept})
             if kinds and all(k in ("call:branch", "ret") for k in kinds):
                 continue
             root = b.root if b.kind == "Closure" else b.id
